@@ -141,8 +141,25 @@ def make_exception(ex, c, E, bound):
     return obj
 
 
+def _param_defaults(info, f):
+    a = info.node.args
+    names = [x.arg for x in a.args]
+    d = list(getattr(f, "__defaults__", None) or ())
+    out = dict(zip(names[len(names) - len(d):], d))
+    out.update(getattr(f, "__kwdefaults__", None) or {})
+    return out
+
+
 def apply(ex, c, info, fn, bound, cls, closure_env, selfobj):
     """modular rule at a call site: obligation requires, then assume ensures / raises over fresh symbols"""
+    if c.args:
+        defaults = _param_defaults(info, getattr(fn, "__func__", fn))
+        for p, v in bound.items():
+            if p not in c.args and p != "self" and p in defaults and v is not defaults[p] and not (
+                    not is_sym(v) and not is_sym(defaults[p]) and type(v) is type(defaults[p]) and v == defaults[p]):
+                # the call passes a parameter the contract knows nothing about: its clauses do not describe this call
+                ex.inlined.add(info.key)
+                return INLINE
     if c.mode == "inline" or c.inline_at_calls or info.qualname.endswith(".__init__"):
         # constructors act on `self`: their contracts are proved for the body; at call sites the body is executed
         ex.inlined.add(info.key)
@@ -204,9 +221,15 @@ def verify_body(ex, c, info, fn, bound=None):
     cls = defining_class(ex, info, fn)
     if bound is None:
         bound = {}
+        defaults = _param_defaults(info, f)
         for a in info.node.args.args:
             p = a.arg
             if p not in c.args:
+                if p in defaults:
+                    # a parameter the contract does not know, with a default: the contract speaks about calls that
+                    # leave it alone (call sites that pass it execute the body instead, see apply)
+                    bound[p] = defaults[p]
+                    continue
                 raise Unsupported(f"{c.key}: contract declares no kind for parameter '{p}'")
             bound[p] = make_value(ex, c.args[p], p)
     ex.inputs = dict(bound)
